@@ -65,6 +65,37 @@ def _wait_calls(body):
                                                      "std::sync::Condvar::wait_while", "std::sync::Condvar::wait_timeout_while"))
 
 
+def _waker_types(facts):
+    """ADTs whose Drop impl calls notify_all / notify_one on a condvar they hold"""
+    out = set()
+    for p_, db_ in facts.bodies.items():
+        if p_.startswith("<stream::") and p_.endswith(" as std::ops::Drop>::drop"):
+            if any(callee_matches(t["callee"], "std::sync::Condvar::notify_all", "std::sync::Condvar::notify_one") for _, t in db_.calls()):
+                out.add(p_[1:].split(" as ", 1)[0].split("<")[0])
+    return out
+
+
+def _waker_locals(facts, b, sym):
+    """locals of b that hold an RAII waker built from self.cv"""
+    wt = _waker_types(facts)
+    if not wt:
+        return []
+    out = []
+    for i, j, st in b.assigns():
+        rv = st["rv"]
+        if rv.get("agg") == "adt" and rv.get("adt") in wt and not st["place"]["p"] and i in b.live_blocks():
+            v = sym.rvalue(rv)
+            if any(x[0] == "field" and x[2] == "cv" and x[1][0] in ("arg", "call") for x in walk(v)):
+                out.append(st["place"]["l"])
+    # the literal may be built into a temporary and moved into the named variable
+    moved = []
+    for i, j, st in b.assigns():
+        rv = st["rv"]
+        if "use" in rv and op_place(rv["use"]) and not op_place(rv["use"])["p"] and op_place(rv["use"])["l"] in out and not st["place"]["p"]:
+            moved.append(st["place"]["l"])
+    return out + moved
+
+
 def _is_capped_ack(b, sym, e):
     """a local holding the capped acknowledgement: each of its definitions is the ack argument, sent_offset, or min of the two"""
     if not (isinstance(e, tuple) and e and e[0] == "local"):
@@ -260,6 +291,17 @@ def run(facts, R):
                 cv = sym.op(t["args"][0])
                 if cv[0] == "field" and cv[2] == "cv":
                     good_n.append(term_pt(b, i))
+            # an RAII waker: a local whose type's Drop notifies the condvar it was built with (`WakeOnDrop(&self.cv)`) notifies
+            # where it is dropped (scope end or an explicit drop)
+            for wl_ in _waker_locals(facts, b, sym):
+                for i_ in sorted(b.live_blocks()):
+                    t_ = b.term(i_)
+                    if t_["k"] == "drop" and not t_["place"]["p"] and t_["place"]["l"] == wl_:
+                        good_n.append(term_pt(b, i_))
+                    if t_["k"] == "call" and callee_matches(t_["callee"], "std::mem::drop", "core::mem::drop") and t_["args"]:
+                        q_ = op_place(t_["args"][0])
+                        if q_ is not None and q_["l"] == wl_:
+                            good_n.append(term_pt(b, i_))
             wpath = must_cross(b, [(w["bb"], w["idx"])], return_points(b), good_n)
             before = False
             if wpath is not None:
